@@ -159,15 +159,44 @@ def _value_shapes(ck, repo):
             ck.ob("R5-value-shapes", q, f"shape:{kind}", False, f"{kind}", text + " - the term is not the per-sample squared error / weight", f"{rel}:{line}")
 
 
+# loss parameter -> position of the update routine's own parameter it must receive (recorded from the tree the checker was built
+# for; positions, not names: renaming a parameter of the routine leaves the rule unchanged); string = attribute path of a parameter
+ROLE_POS = {
+    "rl_blox.algorithm.ddpg.ddpg_update_actor": {"q": 2, "observation": 3, "policy": 0},
+    "rl_blox.algorithm.td7.td7_update_actor": {"embedding": (0, "embedding"), "critic": 2, "observation": 3, "actor": (0, "actor")},
+    "rl_blox.algorithm.sac.sac_update_actor": {"policy": 0, "q": 2, "alpha": 5, "action_key": 3, "observations": 4},
+    "rl_blox.algorithm.sac._update_entropy_coefficient": {"policy": 1, "target_entropy": 2, "action_key": 3, "observations": 4, "alpha": 5},
+    "rl_blox.algorithm.ppo.update_ppo": {"actor": 0, "critic": 1, "observations": 4, "actions": 5},
+    "rl_blox.algorithm.reinforce.reinforce_gradient": {"observation": 2, "action": 3, "policy": 0},
+    "rl_blox.algorithm.actor_critic.actor_critic_policy_gradient": {"observation": 2, "action": 3, "policy": 0},
+    "rl_blox.algorithm.a2c.a2c_policy_gradient": {"observation": 1, "action": 2, "weight": 3, "policy": 0},
+}
+
+
 def _role_transfer(ck, repo, nf, uq, fn, lq, b, site, rule):
-    """Arguments whose parameter name has an obvious counterpart in the update routine must be that quantity."""
+    """Each loss parameter with a recorded counterpart must receive that parameter of the update routine (by position; local aliases
+    and keyword / star calls are resolved by the normal form at the application)."""
     mi = fn._module
-    same_name = {"observation", "observations", "action", "actions", "q", "critic", "action_key", "alpha", "target_entropy", "policy", "actor"}
-    for pname, a in b.items():
-        if pname in same_name and isinstance(a, ast.Name) and a.id in param_names(fn):
-            # e.g. ddpg_update_actor(policy, opt, q, observation): loss(q, observation, policy) <- (q, observation, policy)
-            ok = a.id.rstrip("s") == pname.rstrip("s") or (pname, a.id) in (("alpha", "log_alpha"), ("actor", "policy"))
-            ck.ob(rule, uq, f"arg:{pname}", ok, f"{pname} <- {a.id}", "" if ok else f"the loss parameter `{pname}` receives `{a.id}`", loc(mi, site["app"]))
+    up = param_names(fn)
+    cfg = nf.cfg_of(fn)
+    try:
+        at = cfg.node_of(site["app"]).id
+    except KeyError:
+        at = None
+    sc = Scope(cfg, mi, {p: Poly.atom(p, {p}, {p}) for p in up}, uq)
+    for pname, pos in ROLE_POS.get(uq, {}).items():
+        a = b.get(pname)
+        if a is None:
+            continue
+        if isinstance(pos, tuple):
+            want = f"{up[pos[0]]}.{pos[1]}" if pos[0] < len(up) else None
+        else:
+            want = up[pos] if pos < len(up) else None
+        if want is None:
+            raise AnalysisError(f"{uq}: signature has fewer parameters than when the role table was recorded")
+        got = nf.poly(a, sc, at).canon() if at is not None else ast.unparse(a)
+        ok = got == want
+        ck.ob(rule, uq, f"arg:{pname}", ok, f"{pname} <- {got[:60]}", "" if ok else f"the loss parameter `{pname}` receives `{got[:60]}` instead of the routine's `{want}`", loc(mi, site["app"]))
 
 
 def _pg_weights(ck, repo, nf):
@@ -244,10 +273,12 @@ def _ppo_update(ck, repo, nf):
         v = nf.poly(old, sc, at)
         want = nf.poly(parse_expr("actor.log_probability(observation, action)"), Scope(None, mi, env, q), None)
         ck.ob("R2-ppo", q, "old-logp-same-data", v == want, f"logp_old = {v.canon()[:100]}", "" if v == want else "logp_old must be actor.log_probability(observation, action) on the same batch that is optimised", where)
-    for pname, want_txt in (("observations", "observation"), ("actions", "action")):
+    up_ = param_names(fn)
+    for pname, pos in (("observations", 4), ("actions", 5)):
         a = b.get(pname)
-        ok = isinstance(a, ast.Name) and a.id == want_txt
-        ck.ob("R2-ppo", q, f"arg:{pname}", ok, f"{pname} <- {short(a) if a is not None else None}", "" if ok else f"`{pname}` must be the rollout's `{want_txt}`", where)
+        got_ = nf.poly(a, sc, at).canon() if a is not None else None
+        ok = pos < len(up_) and got_ == up_[pos]
+        ck.ob("R2-ppo", q, f"arg:{pname}", ok, f"{pname} <- {got_}", "" if ok else f"`{pname}` must be the rollout's `{up_[pos] if pos < len(up_) else '?'}`", where)
     # advantages / returns come from compute_gae in that order
     adv, ret = b.get("advantages"), b.get("returns")
     okg = False
@@ -263,6 +294,26 @@ def _ppo_update(ck, repo, nf):
             want = {"rewards": "reward", "values": "critic(observation)", "next_values": "next_value", "terminateds": "terminated"}
             okk = got == want
             ck.ob("R2-ppo", q, "gae-arguments", okk, f"compute_gae({got})", "" if okk else f"expected {want}", loc(mi, g))
+    if not okg and adv is not None and ret is not None:
+        # other read forms of the same result: by field name, by index, through locals
+        nfc = NF(repo, inline_depth=1, inline_calls=False)
+        ca, cr = nfc.poly(adv, Scope(cfg, mi, env, q), at).canon(), nfc.poly(ret, Scope(cfg, mi, env, q), at).canon()
+        pre = "rl_blox.blox.gae.compute_gae("
+        for sfx_a, sfx_r in ((".advantages", ".returns"), ("[0]", "[1]")):
+            if ca.startswith(pre) and cr.startswith(pre) and ca.endswith(sfx_a) and cr.endswith(sfx_r) and ca[: -len(sfx_a)] == cr[: -len(sfx_r)]:
+                okg = True
+                call_txt = ca[: -len(sfx_a)]
+                m_ = nfc.meta.get(call_txt, {})
+                gp = positional_params(repo.func("rl_blox.blox.gae.compute_gae"))
+                got = {gp[i]: a_.canon() for i, a_ in enumerate(m_.get("args", [])) if i < len(gp)}
+                got.update({k: v.canon() for k, v in m_.get("kws", {}).items()})
+                want = {"rewards": "reward", "values": "critic(observation)", "next_values": "next_value", "terminateds": "terminated"}
+                okk = {k: got.get(k) for k in want} == want
+                ck.ob("R2-ppo", q, "gae-arguments", okk, f"compute_gae({got})", "" if okk else f"expected {want}", where)
+        if not okg and (pre not in ca or pre not in cr):
+            pass   # not derived from compute_gae at all: violation below
+        elif not okg and not ((ca.endswith(".returns") or ca.endswith("[1]")) and (cr.endswith(".advantages") or cr.endswith("[0]"))):
+            raise AnalysisError(f"{q}: advantages / returns are read from the GAE result as `{ca[-40:]}` / `{cr[-40:]}` (unrecognised idiom)")
     ck.ob("R2-ppo", q, "advantages-returns-from-gae", okg, f"advantages <- {short(adv) if adv is not None else None}, returns <- {short(ret) if ret is not None else None}",
           "" if okg else "advantages and returns must be the (first, second) result of compute_gae", where)
 
